@@ -8,6 +8,9 @@ N(id, parent, kind, pkg, letter) == [id |-> id, parent |-> parent, kind |-> kind
 MCNodeRecs ==
   { N("env", "", "env", "", ""), N("root", "env", "root", "", ""), N("flag", "root", "flag", "", ""),
     N("p1", "flag", "pkg", "p1", ""), N("p2", "flag", "pkg", "p2", ""), N("p1x", "flag", "pkg", "p1x", ""),
+    \* second recursion level: p1r is listed (and, in most worlds, recursive) INSIDE the recursive p1; below it the
+    \* unlisted p1rd and the explicitly listed p1re
+    N("p1r", "flag", "pkg", "p1r", ""), N("p1re", "flag", "pkg", "p1re", ""), N("p1rA", "p1r", "iface", "p1r", "A"),
     N("p1A", "p1", "iface", "p1", "A"), N("p1B", "p1", "iface", "p1", "B"), N("p1C", "p1", "iface", "p1", "C"),
     N("p1N", "p1", "iface", "p1", "N"),
     N("p2A", "p2", "iface", "p2", "A"), N("p2B", "p2", "iface", "p2", "B"), N("p2C", "p2", "iface", "p2", "C"),
@@ -17,14 +20,16 @@ MCNodeRecs ==
     N("p2A1", "p2A", "entry", "p2", "A"), N("p2A2", "p2A", "entry", "p2", "A"),
     N("p2B1", "p2B", "entry", "p2", "B"), N("p2B2", "p2B", "entry", "p2", "B") }
 
-MCNodeSeq == <<"env", "root", "flag", "p1", "p2", "p1x", "p1A", "p1B", "p1C", "p1N", "p2A", "p2B", "p2C", "p1xA",
+MCNodeSeq == <<"p1r", "p1re", "p1rA", "env", "root", "flag", "p1", "p2", "p1x", "p1A", "p1B", "p1C", "p1N", "p2A", "p2B", "p2C", "p1xA",
                "p1A1", "p1A2", "p1B1", "p1B2", "p2A1", "p2A2", "p2B1", "p2B2">>
 
 MCDecl == [p1 |-> {"A", "B", "C", "N", "D", "E"}, p2 |-> {"A", "B", "C", "D", "E", "X", "Y"}, p1x |-> {"A", "D"},
+           p1r |-> {"A", "D"}, p1rd |-> {"D", "E"}, p1re |-> {"D"},
            p1s1 |-> {"A", "D", "E"}, p1s2 |-> {"A", "D"}, p2s1 |-> {"A", "D"}, p2s2 |-> {"D", "E"}]
 
 \* p2 declares X only under //go:build tag_env and Y only under //go:build tag_root (build-tags is a top-level parameter)
-MCTagged == [p1 |-> << >>, p2 |-> [X |-> "env", Y |-> "root"], p1x |-> << >>, p1s1 |-> << >>, p1s2 |-> << >>, p2s1 |-> << >>, p2s2 |-> << >>]
+MCTagged == [p1r |-> << >>, p1rd |-> << >>, p1re |-> << >>, p1 |-> << >>, p2 |-> [X |-> "env", Y |-> "root"], p1x |-> << >>, p1s1 |-> << >>, p1s2 |-> << >>, p2s1 |-> << >>, p2s2 |-> << >>]
 
-MCSubs == [p1 |-> {"p1s1", "p1s2", "p1x"}, p2 |-> {"p2s1", "p2s2"}, p1x |-> {}]
+MCSubs == [p1 |-> {"p1s1", "p1s2", "p1x", "p1r", "p1rd", "p1re"}, p2 |-> {"p2s1", "p2s2"}, p1x |-> {},
+           p1r |-> {"p1rd", "p1re"}, p1re |-> {}]
 =============================================================================
